@@ -51,6 +51,12 @@ def iter_cases(tier):
     return cases
 
 
+def pool_cases(tier):
+    """finalize_threads under subscribe_on on a thread pool, unsubscribed from another thread while the subscribing task runs (also
+    under C19 / C17 / C02): the callback runs, once"""
+    return [("race2", "(case race2 unsub_race %d)" % (10 if tier == "quick" else 60), {"kind": "thread-pool", "shape": "subscribe_on", "len": 0})]
+
+
 def disconnected_cases(tier):
     """inputs that never hold the observer: never() (its subscription is `()`), a subject terminated beforehand"""
     cases = []
@@ -91,7 +97,7 @@ def run(tier, seed, replay=None):
     proof_stage(rep, "C15src", limit=400)
     if not build_stage(rep):
         return rep.finish()
-    cases = load_replay_case(replay) if replay else hot_cases(tier) + cold_cases(tier) + iter_cases(tier) + disconnected_cases(tier) + twice_cases(tier) + race_cases(tier) + ileave2.cases(tier, Rng(seed), kinds=("fin",))
+    cases = load_replay_case(replay) if replay else hot_cases(tier) + cold_cases(tier) + iter_cases(tier) + pool_cases(tier) + disconnected_cases(tier) + twice_cases(tier) + race_cases(tier) + ileave2.cases(tier, Rng(seed), kinds=("fin",))
     correspond(rep, "C15", cases, "C15_exactly_once_right_after / C15_at_most_once / C15_once_when_unsubscribed / C15_race_once")
     c = rep.coverage
     hist = {}
